@@ -113,6 +113,14 @@ func c12Apply(f *excelize.File, o c12op) string {
 	case "calc":
 		v, err := f.CalcCellValue(o.Sheet, o.Cell)
 		return fmt.Sprintf("%q,%v", v, err)
+	case "list":
+		return fmt.Sprintf("%q count=%d active=%d", f.GetSheetList(), f.SheetCount, f.GetActiveSheetIndex())
+	case "delsheet":
+		err := f.DeleteSheet(o.Sheet)
+		return fmt.Sprintf("%v %q count=%d", err, f.GetSheetList(), f.SheetCount)
+	case "newsheet":
+		idx, err := f.NewSheet(o.Val)
+		return fmt.Sprintf("%d %v %q count=%d", idx, err, f.GetSheetList(), f.SheetCount)
 	case "save":
 		buf, err := f.WriteToBuffer()
 		if err != nil {
@@ -195,6 +203,13 @@ func (c *Ctx) c12Histories() [][]c12op {
 		{{Op: "rows", Sheet: "Data"}, {Op: "setnum", Sheet: "Data", Cell: "B9", Val: "42"}, {Op: "rows", Sheet: "Data"}, {Op: "set", Sheet: "Tiny", Cell: "A1", Val: "text 3 <&> é"}, {Op: "rows", Sheet: "Tiny"}, {Op: "save"}, {Op: "save"}},
 		{{Op: "rows", Sheet: "Sheet1"}, {Op: "rows", Sheet: "Data"}, {Op: "set", Sheet: "Sheet1", Cell: "G1", Val: "x"}, {Op: "rows", Sheet: "Sheet1"}, {Op: "get", Sheet: "Data", Cell: "A400"}},
 	}
+	// the sheet collection of a workbook whose parts were spilled: listing, deleting and adding sheets
+	hs = append(hs,
+		[]c12op{{Op: "list"}, {Op: "delsheet", Sheet: "Tiny"}, {Op: "list"}, {Op: "save"}},
+		[]c12op{{Op: "delsheet", Sheet: "Data"}, {Op: "rows", Sheet: "Sheet1"}, {Op: "list"}, {Op: "save"}},
+		[]c12op{{Op: "rows", Sheet: "Data"}, {Op: "delsheet", Sheet: "Sheet1"}, {Op: "newsheet", Val: "Fresh"}, {Op: "delsheet", Sheet: "Tiny"}, {Op: "list"}, {Op: "set", Sheet: "Fresh", Cell: "A1", Val: "x"}, {Op: "save"}},
+		[]c12op{{Op: "newsheet", Val: "Fresh"}, {Op: "delsheet", Sheet: "Fresh"}, {Op: "delsheet", Sheet: "Data"}, {Op: "delsheet", Sheet: "Tiny"}, {Op: "delsheet", Sheet: "Sheet1"}, {Op: "list"}, {Op: "save"}},
+	)
 	// random histories
 	n := 12
 	if c.Thorough() {
@@ -217,7 +232,14 @@ func (c *Ctx) c12Histories() [][]c12op {
 			case 6:
 				h = append(h, c12op{Op: "save"})
 			default:
-				h = append(h, c12op{Op: "cols", Sheet: sh})
+				switch c.Rng.Intn(5) {
+				case 0:
+					h = append(h, c12op{Op: "delsheet", Sheet: sh}, c12op{Op: "list"})
+				case 1:
+					h = append(h, c12op{Op: "newsheet", Val: []string{"Fresh", "Data", "More"}[c.Rng.Intn(3)]})
+				default:
+					h = append(h, c12op{Op: "cols", Sheet: sh})
+				}
 			}
 		}
 		hs = append(hs, h)
@@ -388,6 +410,9 @@ func c12ModelReq(data []byte, limit int64, hist []c12op, flags []bool) (string, 
 	}
 	var ops []string
 	for i, o := range hist {
+		if o.Op == "list" || o.Op == "delsheet" || o.Op == "newsheet" {
+			return "", false // the sheet collection is not part of the temp-file model
+		}
 		k := sheetPart[o.Sheet]
 		fl := tf(i < len(flags) && flags[i])
 		switch o.Op {
@@ -512,7 +537,7 @@ func (c *Ctx) c12StreamSpill() {
 }
 
 func runC12(c *Ctx) {
-	c.R.Rule = "three generated workbooks (three sheets of different sizes with shared strings, numbers only, stream-written inline strings + rich text) opened under UnzipXMLSizeLimit in {1, 100, each sheet size -1/0/+1, shared-strings size -1/0} x UnzipSizeLimit in {default, declared total, total+1}, then fixed and random histories (cell reads, streaming row/column reads, string and number writes, saves; first touch of a spilled sheet by a write, by a streaming read, by a save): every step result and the final all-sheets observation compared with the default-limit run; temp files in a private TMPDIR counted after every step (vs the extracted model) and after Close; declared size beyond UnzipSizeLimit refused without leftovers; stream spill files after every way of ending. non-trivial = limit below the package size"
+	c.R.Rule = "three generated workbooks (three sheets of different sizes with shared strings, numbers only, stream-written inline strings + rich text) opened under UnzipXMLSizeLimit in {1, 100, each sheet size -1/0/+1, shared-strings size -1/0} x UnzipSizeLimit in {default, declared total, total+1}, then fixed and random histories (cell reads, streaming row/column reads, string and number writes, saves, listing/deleting/adding sheets; first touch of a spilled sheet by a write, by a streaming read, by a save): every step result and the final all-sheets observation compared with the default-limit run; temp files in a private TMPDIR counted after every step (vs the extracted model) and after Close; declared size beyond UnzipSizeLimit refused without leftovers; stream spill files after every way of ending. non-trivial = limit below the package size"
 	c.c12Limits()
 	c.c12Reject()
 	c.c12StreamSpill()
